@@ -7,7 +7,7 @@ CONSTANTS T = 8
           Common = {1, 2}
           Ivs = {4}
           MinExt = 1
-          WorldIds = {1, 2, 5}
+          WorldIds = {2, 5}
           GridFix = TRUE
           Unaligned = FALSE
           MaxHist = 3
